@@ -750,11 +750,16 @@ with PolarsImpl.impl_store.impl_manager as impl:
         return x.log()
 
     @impl(ops.floor)
-    def _floor(x):
+    def _floor(x, *, _sig):
+        if _sig[0].is_int():
+            # the result is a Float (the integer argument is implicitly converted)
+            x = x.cast(pl.Float64)
         return x.floor()
 
     @impl(ops.ceil)
-    def _ceil(x):
+    def _ceil(x, *, _sig):
+        if _sig[0].is_int():
+            x = x.cast(pl.Float64)
         return x.ceil()
 
     @impl(ops.str_to_datetime)
